@@ -95,31 +95,35 @@ Print Assumptions C10_no_escape_repaired.
 (* ------------------------------------------------------------------------------------------ *)
 From NG Require Import V2.Cascade V2.Cascade_proofs.
 
-(* The event cascade of one run_to_completion under the REPAIRED restart logic
-   (fixes/C10-activated-abort-restart.patch) ends within a bound that depends only on the program
-   (through the checked certificate: weights per element) and on the number of live instances and
-   queued events - for every outcome of every expression and every reaction of every instance to
-   every internal event.
-   _partial: the cascade model has one head per instance (programs with ForkHead - groups, when -
-   are rejected by cascade_cert_ok), every actionable head wins its action conflict, and the
-   premise is the checked certificate (intra-flow: every cycle of the cascade graph passes a match
-   on an external event; inter-flow: the StartFlow graph of the segments that run without such a
-   match is acyclic - otherwise no weights exist; an activated flow does not rest on a user-level
-   match for an internal event before its first external match). *)
-Theorem C10_rtc_bound_partial : forall prog certs cleans,
-  cascade_cert_ok prog certs cleans = true ->
-  forall orc react st, swf prog certs st ->
-  exists st', cascade true prog orc react (rtc_bound prog certs (live st) (length (c_queue st))) st = COk st' /\
-              step true prog orc react st' = None.
+(* The event cascade of one run_to_completion under the REPAIRED restart logic ends within a bound
+   that depends only on the program (through the checked certificate: weights per element) and on
+   the number of live heads, live instances and queued events - for every outcome of every
+   expression, every reaction of every head to every internal event, every outcome of the action
+   conflict resolution (an actionable head wins, or loses and is moved to its catch label / its
+   flow is aborted with the default restart) and of every merge.  Instances have any number of
+   heads: ForkHead creates them, MergeHeads / WaitForHeads remove them (and/or groups, when).
+   _partial: the premise is the checked certificate `cascade_cert_ok` -
+     (a) intra-flow: every cycle of the cascade graph passes a match on an external event;
+     (b) inter-flow: weights exist, i.e. the StartFlow graph of the segments that run without such
+         a match is acyclic;
+     (c) side conditions on the region an ACTIVATED flow runs through before it is STARTED: no
+         user-level match on an internal event, no action, and behind a fork the end of the flow
+         is not reachable without a match on an external event;
+   and reactions are oracles (which event wakes which head is not modelled). *)
+Theorem C10_rtc_bound_partial : forall prog certs,
+  cascade_cert_ok prog certs = true ->
+  forall o st, swf prog certs st ->
+  exists st', cascade true prog o (rtc_bound prog certs (live_heads st) (live st) (length (c_queue st))) st = COk st' /\
+              step true prog o st' = None.
 Proof. exact rtc_bound_thm. Qed.
 Print Assumptions C10_rtc_bound_partial.
 
-(* the measure behind it: every processed event strictly decreases the potential phi *)
-Theorem C10_cascade_potential : forall prog certs cleans,
-  cascade_cert_ok prog certs cleans = true ->
-  forall orc react st, swf prog certs st ->
-    step true prog orc react st = None \/
-    exists st', step true prog orc react st = Some (COk st') /\ swf prog certs st' /\
+(* the measure behind it: every processed event / advanced head strictly decreases the potential phi *)
+Theorem C10_cascade_potential : forall prog certs,
+  cascade_cert_ok prog certs = true ->
+  forall o st, swf prog certs st ->
+    step true prog o st = None \/
+    exists st', step true prog o st = Some (COk st') /\ swf prog certs st' /\
                 phi prog certs st' + 1 <= phi prog certs st.
 Proof. exact step_dec. Qed.
 Print Assumptions C10_cascade_potential.
@@ -130,14 +134,22 @@ Print Assumptions C10_cascade_potential.
    repaired guard the same state is quiescent after at most 20 steps. *)
 Theorem C10_activated_abort_refuted :
   cascade_guardedb f4_prog = true /\
-  (forall n, cascade false f4_prog all_true all_advance n
-               (f4_after_send [ {| c_flow := 0; c_pos := 3; c_catch := []; c_status := CStarting; c_act := false;
-                                   c_restarted := false; c_inert := false |} ] [] 0) = COut) /\
-  (exists st', cascade true f4_prog all_true all_advance 20
-               (f4_after_send [ {| c_flow := 0; c_pos := 3; c_catch := []; c_status := CStarting; c_act := false;
-                                   c_restarted := false; c_inert := false |} ] [] 0) = COk st').
+  (forall n, cascade false f4_prog eager n (f4_after_send 0 [] 0) = COut) /\
+  (exists st', cascade true f4_prog eager 20 (f4_after_send 0 [] 0) = COk st').
 Proof. exact activated_abort_refuted. Qed.
 Print Assumptions C10_activated_abort_refuted.
+
+(* The premise made precise.  A loop whose only waits are matches on events produced inside the same
+   run_to_completion (FlowFinished of a child that finishes at once) never lets the cascade end -
+   explicitly (`while True: await b`) or implicitly (`activate a` with `a: await b`): "waiting
+   statement" in the premise therefore means a match on an event that cannot be produced inside
+   the same run_to_completion, and an activated flow is a loop around its body.  Both programs are
+   rejected by the (decidable) certificate and keep the model busy also under the repaired guard. *)
+Theorem C10_internal_only_loop_outside_premise :
+  (cascade_guardedb f7_prog = false /\ cascade_guardedb f7_explicit = false) /\
+  (cascade true f7_prog eager 3000 f7_state = COut /\ cascade true f7_explicit eager 3000 f7_state = COut).
+Proof. exact (conj f7_rejected f7_busy). Qed.
+Print Assumptions C10_internal_only_loop_outside_premise.
 
 (* ------------------------------------------------------------------------------------------ *)
 (* Snapshot discipline of the matching phase: `head_candidates` is a snapshot; as long as the flows
